@@ -13,7 +13,7 @@ import (
 )
 
 func init() {
-	register(&Suite{Name: "taskq", Gen: genTaskQ, Exec: execTaskQ})
+	register(&Suite{Name: "taskq", Gen: genTaskQ, Exec: execTaskQ, Isolated: true})
 }
 
 // execTaskQ drives the real queue through Conn.Async with tasks that block on a per-task gate.
